@@ -39,9 +39,9 @@ from harness.agg import text as TX
 from harness.core import deep_close, err_kind
 
 LEAN = {
-    'C01': ['MlModel.Properties.C01.Rolling'],
+    'C01': ['MlModel.Properties.C01.History'],
     'C07': ['MlModel.Properties.C07.Rolling'],
-    'C11': ['MlModel.Properties.C11.Rolling'],
+    'C11': ['MlModel.Properties.C11.History', 'MlModel.Witness.C11History'],
 }
 
 
